@@ -6,7 +6,9 @@
 
 use crate::config;
 use serde::{Deserialize, Serialize};
-use simkit::machine::{self as mach, CrashPoint, Disk, Errno, FsFault, Machine, OpKind, Server, SimCrash};
+use simkit::machine::{
+    self as mach, Conc, CrashPoint, Disk, Errno, FsFault, Machine, OpKind, ProcState, Server, SimCrash,
+};
 use simkit::runner::{Budget, Harness, Outcome, Tier, Violation};
 use simkit::{Chooser, Rng};
 use std::collections::BTreeMap;
@@ -76,6 +78,20 @@ pub struct Scenario {
     /// Size class of the documents: 0 small, 1 ~7 KB, 2 ~40 KB.
     pub doc_size: u32,
     pub short_read_pct: u64,
+    /// A second rink process on the same cache directory, running at the same
+    /// time as one of `runs`.
+    #[serde(default)]
+    pub pair: Option<Pair>,
+}
+
+#[derive(Serialize, Deserialize, Clone, Debug, PartialEq)]
+pub struct Pair {
+    /// Index into `runs` of the process this one runs concurrently with.
+    pub with_run: usize,
+    /// The second process (`gap_s` is ignored: both start at the same instant).
+    pub b: ProcRun,
+    /// Probability (percent) of a context switch before each step.
+    pub switch_pct: u64,
 }
 
 // ----- documents -------------------------------------------------------------------
@@ -149,7 +165,7 @@ fn body_ids(sc: &Scenario) -> Vec<u32> {
         | CacheState::StaleBitflip(v, _) => ids.push(*v),
         _ => {}
     }
-    for r in &sc.runs {
+    for r in sc.runs.iter().chain(sc.pair.iter().map(|p| &p.b)) {
         for s in &r.server {
             if let Server::Respond { body, .. } = s {
                 ids.push(*body);
@@ -198,6 +214,13 @@ struct RunObs {
     end_ns: u64,
     steps: Vec<(u32, OpKind, u32)>,
     leftover_temp_files: usize,
+    /// Every distinct state of the cache path during this run, in order (the
+    /// first is `before`): what a reader or a kill at that instant would find.
+    seen: Vec<Option<Vec<u8>>>,
+    /// The process that ran concurrently with this one, if any.
+    partner: Option<Box<RunObs>>,
+    faults_configured: bool,
+    switches: u64,
 }
 
 struct HistoryOut {
@@ -246,10 +269,73 @@ fn initial_disk(sc: &Scenario) -> Disk {
     d
 }
 
+fn result_code(r: &ProcResult) -> u64 {
+    match r {
+        ProcResult::Contents(Ok(_)) => 1,
+        ProcResult::Contents(Err(_)) => 2,
+        ProcResult::Loaded(Ok(_)) => 3,
+        ProcResult::Loaded(Err(_)) => 4,
+        ProcResult::Fetched(Ok(_)) => 5,
+        ProcResult::Fetched(Err(_)) => 6,
+        ProcResult::Crashed => 7,
+        ProcResult::Hung => 8,
+        ProcResult::Panicked(_) => 9,
+    }
+}
+
+/// One process from its entry point to its end, on the current thread's machine.
+fn run_entry(entry: Entry, cfg: &Cfg) -> ProcResult {
+    let cfg2 = make_config(cfg);
+    let r = std::panic::catch_unwind(std::panic::AssertUnwindSafe(move || match entry {
+        Entry::Startup => {
+            if cfg2.currency.enabled {
+                ProcResult::Contents(
+                    config::h_load_live_currency(&cfg2.currency)
+                        .map(|s| s.into_bytes())
+                        .map_err(|e| format!("{:#}", e)),
+                )
+            } else {
+                ProcResult::Contents(Err("currency disabled".into()))
+            }
+        }
+        Entry::StartupFull => ProcResult::Loaded(match config::load(&cfg2) {
+            Ok(mut ctx) => {
+                let unit = rink_core::one_line(&mut ctx, "3 foot -> meter")
+                    .unwrap_or_else(|e| format!("ERR {}", e));
+                let usd = rink_core::one_line(&mut ctx, "1 EUR -> USD");
+                Ok((unit, usd))
+            }
+            Err(e) => Err(format!("{:#}", e)),
+        }),
+        Entry::Fetch => ProcResult::Fetched(
+            config::force_refresh_currency(&cfg2.currency).map_err(|e| format!("{:#}", e)),
+        ),
+    }));
+    match r {
+        Ok(v) => v,
+        Err(p) => {
+            if p.is::<SimCrash>() {
+                if mach::with(|m| m.hung) {
+                    ProcResult::Hung
+                } else {
+                    ProcResult::Crashed
+                }
+            } else if let Some(s) = p.downcast_ref::<String>() {
+                ProcResult::Panicked(s.clone())
+            } else if let Some(s) = p.downcast_ref::<&'static str>() {
+                ProcResult::Panicked(s.to_string())
+            } else {
+                ProcResult::Panicked("<panic>".into())
+            }
+        }
+    }
+}
+
 fn run_history(sc: &Scenario, chooser: Chooser, keep_log: bool) -> HistoryOut {
     let mut m = Machine::new(initial_disk(sc), T0_NS, chooser);
     m.keep_log = keep_log;
     m.short_read_pct = sc.short_read_pct;
+    m.watch_path = Some(simkit::machine::norm(&PathBuf::from(CACHE_PATH)));
     if sc.cfg.no_cache_dir {
         m.cache_dir = None;
     }
@@ -258,7 +344,6 @@ fn run_history(sc: &Scenario, chooser: Chooser, keep_log: bool) -> HistoryOut {
         m.bodies.insert(id, body_bytes(id, sc.doc_size));
     }
     let prev = mach::install(m);
-    let cfg = make_config(&sc.cfg);
     let mut obs = Vec::new();
     for run in &sc.runs {
         let (before, start_ns) = mach::with(|m| {
@@ -273,101 +358,102 @@ fn run_history(sc: &Scenario, chooser: Chooser, keep_log: bool) -> HistoryOut {
                 m.clock_ns,
             )
         });
-        let entry = run.entry.clone();
-        let cfg2 = cfg.clone();
-        let r = std::panic::catch_unwind(std::panic::AssertUnwindSafe(move || match entry {
-            Entry::Startup => {
-                if cfg2.currency.enabled {
-                    ProcResult::Contents(
-                        config::h_load_live_currency(&cfg2.currency)
-                            .map(|s| s.into_bytes())
-                            .map_err(|e| format!("{:#}", e)),
-                    )
-                } else {
-                    ProcResult::Contents(Err("currency disabled".into()))
-                }
-            }
-            Entry::StartupFull => ProcResult::Loaded(match config::load(&cfg2) {
-                Ok(mut ctx) => {
-                    let unit = rink_core::one_line(&mut ctx, "3 foot -> meter")
-                        .unwrap_or_else(|e| format!("ERR {}", e));
-                    let usd = rink_core::one_line(&mut ctx, "1 EUR -> USD");
-                    Ok((unit, usd))
-                }
-                Err(e) => Err(format!("{:#}", e)),
-            }),
-            Entry::Fetch => ProcResult::Fetched(
-                config::force_refresh_currency(&cfg2.currency).map_err(|e| format!("{:#}", e)),
-            ),
-        }));
-        let result = match r {
-            Ok(v) => v,
-            Err(p) => {
-                if p.is::<SimCrash>() {
-                    if mach::with(|m| m.hung) {
-                        ProcResult::Hung
-                    } else {
-                        ProcResult::Crashed
-                    }
-                } else if let Some(s) = p.downcast_ref::<String>() {
-                    ProcResult::Panicked(s.clone())
-                } else if let Some(s) = p.downcast_ref::<&'static str>() {
-                    ProcResult::Panicked(s.to_string())
-                } else {
-                    ProcResult::Panicked("<panic>".into())
-                }
+        let pair_here = sc.pair.as_ref().filter(|p| p.with_run == obs.len());
+        let (result, result_b) = match pair_here {
+            None => (run_entry(run.entry.clone(), &sc.cfg), None),
+            Some(p) => {
+                mach::with(|m| {
+                    m.conc = Some(Conc {
+                        parked: ProcState {
+                            faults: p.b.faults.clone(),
+                            crash: p.b.crash.map(|(step, partial)| CrashPoint { step, partial }),
+                            server: p.b.server.clone(),
+                            ..Default::default()
+                        },
+                        current: 0,
+                        finished: [false, false],
+                        switch_pct: p.switch_pct,
+                        switches: 0,
+                    });
+                    m.event("second_process_start", 0, 0);
+                });
+                let entry_b = p.b.entry.clone();
+                let cfg_b = sc.cfg.clone();
+                let hb = std::thread::Builder::new()
+                    .name("process-b".into())
+                    .stack_size(64 << 20)
+                    .spawn(move || {
+                        mach::conc_wait_turn(1);
+                        let r = run_entry(entry_b, &cfg_b);
+                        mach::conc_finish(1);
+                        r
+                    })
+                    .expect("spawn process b");
+                let ra = run_entry(run.entry.clone(), &sc.cfg);
+                mach::conc_finish(0);
+                let rb = hb.join().expect("process b thread");
+                (ra, Some(rb))
             }
         };
         let o = mach::with(|m| {
             let after = m.disk.read(&PathBuf::from(CACHE_PATH)).map(|b| b.to_vec());
-            let code = match &result {
-                ProcResult::Contents(Ok(_)) => 1,
-                ProcResult::Contents(Err(_)) => 2,
-                ProcResult::Loaded(Ok(_)) => 3,
-                ProcResult::Loaded(Err(_)) => 4,
-                ProcResult::Fetched(Ok(_)) => 5,
-                ProcResult::Fetched(Err(_)) => 6,
-                ProcResult::Crashed => 7,
-                ProcResult::Hung => 8,
-                ProcResult::Panicked(_) => 9,
-            };
             let mut h = simkit::rng::Fnv::default();
             h.bytes(after.as_deref().unwrap_or(b"<absent>"));
-            m.event("process_end", code, h.0);
-            let fired: Vec<OpKind> = {
-                // a fault fired if its (op, nth) was reached
-                m.faults
-                    .iter()
-                    .filter(|f| m.op_counts.get(&f.op).copied().unwrap_or(0) > f.nth)
-                    .map(|f| f.op)
-                    .collect()
-            };
-            let read_side = fired
-                .iter()
-                .any(|k| matches!(k, OpKind::Open | OpKind::Read | OpKind::Metadata | OpKind::Seek));
-            let write_side = fired.iter().any(|k| {
-                !matches!(k, OpKind::Open | OpKind::Read | OpKind::Metadata | OpKind::Seek)
-            });
+            m.event("process_end", result_code(&result), h.0);
+            if let Some(rb) = &result_b {
+                m.event("second_process_end", result_code(rb), h.0);
+            }
             let leftovers = m
                 .disk
                 .list(&PathBuf::from(CACHE_DIR))
                 .iter()
                 .filter(|p| p.as_path() != PathBuf::from(CACHE_PATH).as_path())
                 .count();
-            RunObs {
-                before: before.clone(),
-                after,
-                result: result.clone(),
-                completed_200: m.http.completed_200_bodies.clone(),
-                cut_but_ok: m.http.cut_but_ok_200.clone(),
-                performed: m.http.performed,
-                faults_fired_read_side: read_side,
-                faults_fired_write_side: write_side,
-                start_ns,
-                end_ns: m.clock_ns,
-                steps: m.trace.clone(),
-                leftover_temp_files: leftovers,
+            let seen = m.watch_log.clone();
+            let end_ns = m.clock_ns;
+            let switches = m.conc.as_ref().map(|c| c.switches).unwrap_or(0);
+            let mk = |result: ProcResult,
+                      faults: &Vec<FsFault>,
+                      op_counts: &BTreeMap<OpKind, u32>,
+                      http: &simkit::machine::HttpStats,
+                      trace: &Vec<(u32, OpKind, u32)>| {
+                // a fault fired if its (op, nth) was reached
+                let fired: Vec<OpKind> = faults
+                    .iter()
+                    .filter(|f| op_counts.get(&f.op).copied().unwrap_or(0) > f.nth)
+                    .map(|f| f.op)
+                    .collect();
+                let read_side = fired
+                    .iter()
+                    .any(|k| matches!(k, OpKind::Open | OpKind::Read | OpKind::Metadata | OpKind::Seek));
+                let write_side = fired.iter().any(|k| {
+                    !matches!(k, OpKind::Open | OpKind::Read | OpKind::Metadata | OpKind::Seek)
+                });
+                RunObs {
+                    before: before.clone(),
+                    after: after.clone(),
+                    result,
+                    completed_200: http.completed_200_bodies.clone(),
+                    cut_but_ok: http.cut_but_ok_200.clone(),
+                    performed: http.performed,
+                    faults_fired_read_side: read_side,
+                    faults_fired_write_side: write_side,
+                    start_ns,
+                    end_ns,
+                    steps: trace.clone(),
+                    leftover_temp_files: leftovers,
+                    seen: seen.clone(),
+                    partner: None,
+                    faults_configured: !faults.is_empty(),
+                    switches,
+                }
+            };
+            let mut oa = mk(result.clone(), &m.faults, &m.op_counts, &m.http, &m.trace);
+            if let (Some(rb), Some(c)) = (&result_b, m.conc.as_ref()) {
+                let p = &c.parked;
+                oa.partner = Some(Box::new(mk(rb.clone(), &p.faults, &p.op_counts, &p.http, &p.trace)));
             }
+            oa
         });
         obs.push(o);
     }
@@ -422,9 +508,192 @@ fn describe(b: &Option<Vec<u8>>, sc: &Scenario) -> String {
     }
 }
 
+/// Bodies that may legitimately be installed because of what this process
+/// received: every completed 200 body, and a close-delimited body that lost
+/// nothing but trailing white space (still the complete document; a tree that
+/// checks the document before installing it will, rightly, install it).
+fn acceptable_of(sc: &Scenario, o: &RunObs) -> Vec<Vec<u8>> {
+    let mut acceptable: Vec<Vec<u8>> = o
+        .completed_200
+        .iter()
+        .map(|b| body_bytes(*b, sc.doc_size))
+        .collect();
+    for (b, n) in &o.cut_but_ok {
+        let full = body_bytes(*b, sc.doc_size);
+        let got = &full[..(*n as usize).min(full.len())];
+        if full[got.len()..].iter().all(|c| c.is_ascii_whitespace()) && !got.is_empty() {
+            acceptable.push(got.to_vec());
+        }
+    }
+    acceptable
+}
+
+/// O1 at every instant: each state the cache path went through during the run
+/// is the previous contents or a complete new body.
+fn seen_violation(sc: &Scenario, tag: &str, o: &RunObs, acceptable: &[Vec<u8>]) -> Option<Violation> {
+    for (k, st) in o.seen.iter().enumerate() {
+        let ok = *st == o.before || st.as_ref().map(|a| acceptable.iter().any(|n| n == a)).unwrap_or(false);
+        if !ok {
+            return Some(Violation {
+                clause: "cache-not-atomic".into(),
+                detail: format!(
+                    "{}: while the run was under way (state #{} of the cache path) the cache file was {}; before the run it was {}; a reader, or a kill, at that instant finds neither the previous nor a complete new file",
+                    tag,
+                    k,
+                    describe(st, sc),
+                    describe(&o.before, sc)
+                ),
+            });
+        }
+    }
+    None
+}
+
+/// Two processes at once: only what the property states for any circumstances
+/// is demanded - the file is always the previous or a complete new one, what a
+/// process uses is one of those, a readable cache is fallen back to, and a
+/// refresh that succeeded leaves a complete new file.
+fn oracle_pair(sc: &Scenario, ri: usize, a: &RunObs, b: &RunObs) -> Option<Violation> {
+    let pair = sc.pair.as_ref().unwrap();
+    let tag = format!(
+        "process run #{} ({:?}) together with a second process ({:?}), {} context switches",
+        ri, sc.runs[ri].entry, pair.b.entry, a.switches
+    );
+    let mut acceptable = acceptable_of(sc, a);
+    acceptable.extend(acceptable_of(sc, b));
+    let after_ok =
+        a.after == a.before || a.after.as_ref().map(|x| acceptable.iter().any(|n| n == x)).unwrap_or(false);
+    if !after_ok {
+        return Some(Violation {
+            clause: "cache-not-atomic".into(),
+            detail: format!(
+                "{}: cache file was {} before, is {} after both ended; completed 200 bodies: {:?} and {:?}",
+                tag,
+                describe(&a.before, sc),
+                describe(&a.after, sc),
+                a.completed_200,
+                b.completed_200
+            ),
+        });
+    }
+    if let Some(v) = seen_violation(sc, &tag, a, &acceptable) {
+        return Some(v);
+    }
+    let readable = a
+        .before
+        .as_ref()
+        .map(|x| versions(sc).into_iter().any(|v| *x == document(v, sc.doc_size)))
+        .unwrap_or(false);
+    let mut some_refresh_succeeded = false;
+    for (who, o) in [("first", a), ("second", b)] {
+        match &o.result {
+            ProcResult::Panicked(m) => {
+                return Some(Violation {
+                    clause: "panic".into(),
+                    detail: format!("{}: the {} process panicked: {}", tag, who, m),
+                })
+            }
+            ProcResult::Hung => {
+                return Some(Violation {
+                    clause: "hang".into(),
+                    detail: format!("{}: the {} process never finishes (a transfer that stalled with no timeout to bound it, or a wait for a lock nobody releases)", tag, who),
+                })
+            }
+            ProcResult::Crashed => continue,
+            _ => {}
+        }
+        let newest_is_document = matches!(o.completed_200.last(), Some(id) if *id < 100_000);
+        let clean = !o.faults_configured;
+        if newest_is_document && clean && !sc.cfg.no_cache_dir {
+            some_refresh_succeeded = true;
+        }
+        match &o.result {
+            ProcResult::Contents(Ok(c)) if sc.cfg.enabled => {
+                if !(a.before.as_ref() == Some(c) || acceptable.iter().any(|n| n == c)) {
+                    return Some(Violation {
+                        clause: "served-wrong-contents".into(),
+                        detail: format!(
+                            "{}: the {} process obtained {} as currency data; cache before: {}, completed 200 bodies: {:?} and {:?}",
+                            tag,
+                            who,
+                            describe(&Some(c.clone()), sc),
+                            describe(&a.before, sc),
+                            a.completed_200,
+                            b.completed_200
+                        ),
+                    });
+                }
+            }
+            ProcResult::Contents(Err(e)) if sc.cfg.enabled => {
+                if readable && clean && !sc.cfg.no_cache_dir {
+                    return Some(Violation {
+                        clause: "no-stale-fallback".into(),
+                        detail: format!(
+                            "{}: a cache file existed ({}) but the {} process got no currency data: {}",
+                            tag,
+                            describe(&a.before, sc),
+                            who,
+                            e
+                        ),
+                    });
+                }
+            }
+            ProcResult::Loaded(Err(e)) => {
+                return Some(Violation {
+                    clause: "does-not-start".into(),
+                    detail: format!("{}: load() failed in the {} process: {}", tag, who, e),
+                })
+            }
+            ProcResult::Loaded(Ok((unit, _))) => {
+                if !unit.contains("0.9144") {
+                    return Some(Violation {
+                        clause: "does-not-start".into(),
+                        detail: format!("{}: `3 foot -> meter` answered {:?} in the {} process", tag, unit, who),
+                    });
+                }
+            }
+            ProcResult::Fetched(Ok(_)) => {
+                some_refresh_succeeded = true;
+            }
+            ProcResult::Fetched(Err(e)) => {
+                if newest_is_document && clean && !sc.cfg.no_cache_dir {
+                    return Some(Violation {
+                        clause: "refresh-not-persisted".into(),
+                        detail: format!(
+                            "{}: the {} process's transfer completed but --fetch-currency failed: {}",
+                            tag, who, e
+                        ),
+                    });
+                }
+            }
+            _ => {}
+        }
+    }
+    if some_refresh_succeeded {
+        let ok = a.after.as_ref().map(|x| acceptable.iter().any(|n| n == x)).unwrap_or(false);
+        if !ok {
+            return Some(Violation {
+                clause: "refresh-not-persisted".into(),
+                detail: format!(
+                    "{}: a refresh completed with nothing failing locally, but the cache holds {} and not a new document",
+                    tag,
+                    describe(&a.after, sc)
+                ),
+            });
+        }
+    }
+    None
+}
+
 fn oracle(sc: &Scenario, obs: &[RunObs]) -> Option<Violation> {
     for (ri, o) in obs.iter().enumerate() {
         let run = &sc.runs[ri];
+        if let Some(b) = &o.partner {
+            if let Some(v) = oracle_pair(sc, ri, o, b) {
+                return Some(v);
+            }
+            continue;
+        }
         let tag = format!(
             "process run #{} ({:?}{})",
             ri,
@@ -443,14 +712,7 @@ fn oracle(sc: &Scenario, obs: &[RunObs]) -> Option<Violation> {
         // A close-delimited body that lost nothing but trailing white space is
         // still the complete document (a tree that checks the document before
         // installing it will, rightly, install it).
-        let mut acceptable: Vec<Vec<u8>> = new_bodies.clone();
-        for (b, n) in &o.cut_but_ok {
-            let full = body_bytes(*b, sc.doc_size);
-            let got = &full[..(*n as usize).min(full.len())];
-            if full[got.len()..].iter().all(|c| c.is_ascii_whitespace()) && !got.is_empty() {
-                acceptable.push(got.to_vec());
-            }
-        }
+        let acceptable: Vec<Vec<u8>> = acceptable_of(sc, o);
         // O1 atomic replacement
         let after_ok = o.after == o.before
             || o
@@ -470,6 +732,9 @@ fn oracle(sc: &Scenario, obs: &[RunObs]) -> Option<Violation> {
                 ),
             });
         }
+        if let Some(v) = seen_violation(sc, &tag, o, &acceptable) {
+            return Some(v);
+        }
         // panics and hangs
         match &o.result {
             ProcResult::Panicked(m) => {
@@ -481,7 +746,7 @@ fn oracle(sc: &Scenario, obs: &[RunObs]) -> Option<Violation> {
             ProcResult::Hung => {
                 return Some(Violation {
                     clause: "hang".into(),
-                    detail: format!("{}: the transfer stalled and no timeout bounded it", tag),
+                    detail: format!("{}: rink never finishes (a transfer that stalled with no timeout to bound it, or a wait for a lock nobody releases)", tag),
                 })
             }
             _ => {}
@@ -902,13 +1167,53 @@ impl Harness for C20 {
         } else {
             None
         };
+        let short_read_pct = *rng.pick(&[0u64, 0, 20]);
+        // One history in six has a second rink process on the same cache
+        // directory at the same time as one of the runs.
+        let pair = if rng.chance(1, 6) {
+            let with_run = rng.below(runs.len() as u64) as usize;
+            version += 1;
+            let entry = if full && rng.chance(1, 4) {
+                Entry::StartupFull
+            } else if rng.chance(1, 2) {
+                Entry::Fetch
+            } else {
+                Entry::Startup
+            };
+            let mut faults = Vec::new();
+            if rng.chance(1, 6) {
+                faults.push(gen_fault(rng));
+            }
+            let crash = if rng.chance(1, 8) {
+                Some((
+                    rng.below(14) as u32,
+                    if rng.chance(1, 2) { Some(*rng.pick(&[1u32, 500, 999])) } else { None },
+                ))
+            } else {
+                None
+            };
+            Some(Pair {
+                with_run,
+                b: ProcRun {
+                    gap_s: 0,
+                    entry,
+                    server: vec![gen_server(rng, version, doc_len)],
+                    faults,
+                    crash,
+                },
+                switch_pct: *rng.pick(&[3u64, 15, 15, 50]),
+            })
+        } else {
+            None
+        };
         Scenario {
             initial,
             cfg,
             runs,
             sweep_run,
             doc_size,
-            short_read_pct: *rng.pick(&[0u64, 0, 20]),
+            short_read_pct,
+            pair,
         }
     }
 
@@ -917,7 +1222,7 @@ impl Harness for C20 {
         base_sc.sweep_run = None;
         let base = run_history(&base_sc, chooser, keep_log);
         let mut stats = base.stats.clone();
-        let mut bump = |stats: &mut BTreeMap<String, u64>, k: &str, n: u64| {
+        let bump = |stats: &mut BTreeMap<String, u64>, k: &str, n: u64| {
             if n > 0 {
                 *stats.entry(k.to_string()).or_insert(0) += n;
             }
@@ -953,6 +1258,42 @@ impl Harness for C20 {
                 o.performed,
                 o.completed_200,
             ));
+            if let (Some(b), Some(p)) = (&o.partner, &sc.pair) {
+                history.push(format!(
+                    "   at the same time, a second process: {:?} server={:?} faults={:?} crash={:?} -> {} ; {} steps, {} transfer(s), completed 200 bodies {:?}; {} context switches; the cache path went through {} states",
+                    p.b.entry,
+                    p.b.server,
+                    p.b.faults,
+                    p.b.crash,
+                    match &b.result {
+                        ProcResult::Contents(Ok(c)) => format!("Ok(contents {})", describe(&Some(c.clone()), sc)),
+                        ProcResult::Contents(Err(e)) => format!("Err({})", e.lines().next().unwrap_or("")),
+                        ProcResult::Loaded(Ok((u, usd))) => format!("Ok(ctx: {:?}, {:?})", u, usd),
+                        ProcResult::Loaded(Err(e)) => format!("Err({})", e),
+                        ProcResult::Fetched(Ok(m)) => format!("Ok({})", m.split(" after ").next().unwrap_or("")),
+                        ProcResult::Fetched(Err(e)) => format!("Err({})", e.lines().next().unwrap_or("")),
+                        ProcResult::Crashed => "KILLED".into(),
+                        ProcResult::Hung => "HUNG".into(),
+                        ProcResult::Panicked(m) => format!("PANIC {}", m),
+                    },
+                    b.steps.len(),
+                    b.performed,
+                    b.completed_200,
+                    o.switches,
+                    o.seen.len(),
+                ));
+                bump(&mut stats, "two_process_runs", 1);
+                bump(&mut stats, "process_runs", 1);
+                if o.performed > 0 && b.performed > 0 {
+                    bump(&mut stats, "both_processes_transferred", 1);
+                }
+                if matches!(b.result, ProcResult::Crashed) || matches!(o.result, ProcResult::Crashed) {
+                    bump(&mut stats, "two_process_run_with_kill", 1);
+                }
+            }
+            if o.seen.len() >= 3 {
+                bump(&mut stats, "cache_replaced_twice_in_one_run", 1);
+            }
             bump(&mut stats, "process_runs", 1);
             match sc.runs[ri].entry {
                 Entry::Startup => bump(&mut stats, "entry_startup", 1),
@@ -987,7 +1328,7 @@ impl Harness for C20 {
                     // kill leaves behind is judged on the cache bytes (O1) and on what
                     // the following start reads, not on the 40 ms definitions load.
                     let mut lite_sc = base_sc.clone();
-                    for run in lite_sc.runs.iter_mut() {
+                    for run in lite_sc.runs.iter_mut().chain(lite_sc.pair.iter_mut().map(|p| &mut p.b)) {
                         if run.entry == Entry::StartupFull {
                             run.entry = Entry::Startup;
                         }
@@ -1044,7 +1385,7 @@ impl Harness for C20 {
             }
         }
         bump(&mut stats, "crash_variants_executed", variants);
-        let any_fault = sc.runs.iter().any(|r| {
+        let any_fault = sc.pair.is_some() || sc.runs.iter().any(|r| {
             !r.faults.is_empty()
                 || r.crash.is_some()
                 || r.server.iter().any(|s| {
@@ -1090,11 +1431,45 @@ impl Harness for C20 {
             }
             return out;
         }
-        // 2. drop process runs
+        // 2. drop the second process, or make it simpler
+        if let Some(p) = &sc.pair {
+            let mut c = sc.clone();
+            c.pair = None;
+            out.push(c);
+            if !p.b.faults.is_empty() {
+                let mut c = sc.clone();
+                c.pair.as_mut().unwrap().b.faults.clear();
+                out.push(c);
+            }
+            if p.b.crash.is_some() {
+                let mut c = sc.clone();
+                c.pair.as_mut().unwrap().b.crash = None;
+                out.push(c);
+            }
+            if p.b.entry == Entry::StartupFull {
+                let mut c = sc.clone();
+                c.pair.as_mut().unwrap().b.entry = Entry::Startup;
+                out.push(c);
+            }
+            if p.switch_pct != 15 {
+                let mut c = sc.clone();
+                c.pair.as_mut().unwrap().switch_pct = 15;
+                out.push(c);
+            }
+        }
+        // 2b. drop process runs (the second process stays with its partner)
         if sc.runs.len() > 1 {
             for i in 0..sc.runs.len() {
                 let mut c = sc.clone();
                 c.runs.remove(i);
+                if let Some(p) = c.pair.as_mut() {
+                    if p.with_run == i {
+                        continue;
+                    }
+                    if p.with_run > i {
+                        p.with_run -= 1;
+                    }
+                }
                 out.push(c);
             }
         }
@@ -1199,11 +1574,21 @@ impl Harness for C20 {
             sc.initial,
             sc.runs
                 .iter()
-                .map(|r| format!(
-                    "{:?}{}{}",
+                .enumerate()
+                .map(|(i, r)| format!(
+                    "{:?}{}{}{}",
                     r.entry,
                     if r.crash.is_some() { "+kill" } else { "" },
-                    if r.faults.is_empty() { "" } else { "+fsfault" }
+                    if r.faults.is_empty() { "" } else { "+fsfault" },
+                    match &sc.pair {
+                        Some(p) if p.with_run == i => format!(
+                            "||{:?}{}{}",
+                            p.b.entry,
+                            if p.b.crash.is_some() { "+kill" } else { "" },
+                            if p.b.faults.is_empty() { "" } else { "+fsfault" }
+                        ),
+                        _ => String::new(),
+                    }
                 ))
                 .collect::<Vec<_>>()
                 .join(",")
@@ -1213,9 +1598,10 @@ impl Harness for C20 {
     fn label(&self, sc: &Scenario) -> String {
         let full = sc.runs.iter().any(|r| r.entry == Entry::StartupFull);
         format!(
-            "{}{}",
+            "{}{}{}",
             if full { "with-full-load" } else { "lite" },
-            if sc.sweep_run.is_some() { "+crash-sweep" } else { "" }
+            if sc.sweep_run.is_some() { "+crash-sweep" } else { "" },
+            if sc.pair.is_some() { "+two-processes" } else { "" }
         )
     }
 
@@ -1227,7 +1613,11 @@ impl Harness for C20 {
          non-200 with a real document, stall, refused, DNS failure}, seeded chunking, file-system faults (EACCES/ENOSPC/EROFS/EIO/EXDEV/EINTR/EDQUOT/EMFILE/short write \
          at a chosen call), clock jumps between runs, and - for 3 of 4 histories - a crash sweep: the history is re-executed once for \
          every file-system/transfer step of one chosen run (and three times for each write: 1, 500 and 999 permille written) with the process killed there. \
-         After every run (killed or not) the cache bytes are compared with the previous bytes and the bodies of 200 responses that completed. \
+         After every run (killed or not) the cache bytes are compared with the previous bytes and the bodies of 200 responses that completed, \
+         and so is every state the cache path went through while the run was under way. One history in six adds a second rink process \
+         (start-up, full load or --fetch-currency, with its own server behaviour, faults and kill point) that runs at the same time as one of the runs \
+         on the same cache directory: both execute the real code on their own threads, one at a time, and before every file-system or transfer step \
+         the seeded chooser decides whether the other process runs first. \
          Non-trivial = any fault, non-200/cut/stalled response, kill, or non-default chunking decision; distinct = distinct digest over \
          (scenario, every step of every execution including all crash variants)."
             .into()
@@ -1237,9 +1627,10 @@ impl Harness for C20 {
         vec![
             "Crash model is process kill (what C20 states): completed operations persist, rename is atomic; power loss / lost page cache is not modelled".into(),
             "The curl stand-in reproduces libcurl's documented outcomes (18 short body, 23 short callback count, 28 timeout incl. paused transfer, 56 reset, 7 refused, 6 DNS, error-page bodies delivered to the callback)".into(),
+            "std::fs::File stand-in: advisory locks (lock, lock_shared, try_lock, unlock) with flock(2) semantics: a lock belongs to the open file description, goes with its last handle or its process; a blocking lock lets the other process run".into(),
             "tempfile stand-in: O_EXCL create with unique names, persist = rename(2), drop = unlink; /tmp is a different file system (rename across gives EXDEV)".into(),
             "A close-delimited 200 body cut by an orderly close (or a connection closed inside the response headers) is reported as success by libcurl with the prefix (or nothing) delivered; it is generated, and the prefix must not reach the cache".into(),
-            "Two rink processes refreshing concurrently are outside the property as quantified".into(),
+            "Two rink processes at once (not in the property's quantifier, covered by its 'whatever happens'): one file-system or transfer step is atomic with respect to the other process; only the clauses that hold for any circumstances are demanded of such a run (previous-or-complete-new file at every instant, contents used are one of those, readable cache is fallen back to, a refresh that succeeded leaves a complete new file)".into(),
         ]
     }
 
@@ -1272,6 +1663,11 @@ impl Harness for C20 {
             "entry_startup_full_load",
             "entry_fetch_currency",
             "leftover_temp_files_seen",
+            "two_process_runs",
+            "process_switch",
+            "both_processes_transferred",
+            "cache_replaced_twice_in_one_run",
+            "two_process_run_with_kill",
         ]
     }
 }
